@@ -3757,18 +3757,15 @@ Box<ITV>
   // Revise the expression to take into account the denominator of the
   // maximum/minimum value for `var'.
   Linear_Expression revised_expr;
-  PPL_DIRTY_TEMP_COEFFICIENT(d);
   if (corrected_relsym == LESS_THAN || corrected_relsym == LESS_OR_EQUAL) {
     if (bound_below) {
       revised_expr = expr;
-      revised_expr.set_inhomogeneous_term(Coefficient_zero());
-      revised_expr *= d;
+      revised_expr *= min_denom;
     }
   }
   else {
     if (bound_above) {
       revised_expr = expr;
-      revised_expr.set_inhomogeneous_term(Coefficient_zero());
       revised_expr *= max_denom;
     }
   }
